@@ -92,6 +92,90 @@ static int setup_input(pipe_type *pipe, const uint8_t *data, size_t size)
   ENS("C14/setup_input.other_descriptors_untouched", FD_FRAME_EXCEPT((data != NULL) ? MASK_OF(OLD(*pipe)) : 0u))
   ;
 
+/* ---- poll family (C08, C09): bounded in the number of sources (VERIF_NSRC) ---- */
+#ifndef VERIF_NSRC
+#define VERIF_NSRC 2
+#endif
+/* what reproc_poll needs of each source's handle */
+#define INV_POLL(p)                                                            \
+  (PIPE_WF((p)->pipe.in) && PIPE_WF((p)->pipe.out) && PIPE_WF((p)->pipe.err) && \
+   PIPE_WF((p)->pipe.exit) && (p)->child.out == -1 && (p)->child.err == -1 && DEADLINE_WF(p))
+#define SRC_OK(k) ((k) >= num_sources || sources[k].process == NULL || INV_POLL(sources[k].process))
+#define SRCS_OK (sources != NULL && num_sources >= 1 && num_sources <= VERIF_NSRC && SRC_OK(0) && SRC_OK(1) && SRC_OK(2))
+#define HAS_DL(k) ((k) < num_sources && sources[k].process != NULL && sources[k].process->deadline != -1)
+#define DL(k) (sources[k].process->deadline)
+/* for all k: phi(k) (explicit conjunction up to the bound) */
+#define ALL_K(phi) (phi(0) && phi(1) && phi(2))
+#define ANY_K(phi) (phi(0) || phi(1) || phi(2))
+#define EXPIRED_AT_ENTRY(k) (HAS_DL(k) && DL(k) <= OLD(g.now))
+#define NOT_EXPIRED_NOW(k) (!HAS_DL(k) || DL(k) > g.now)
+/* "the result r is such that phi(r)": case split instead of a symbolic index */
+#define AT_RV(phi) ((RV == 0 && phi(0)) || (RV == 1 && phi(1)) || (RV == 2 && phi(2)))
+#define EXPIRED_NOW(k) (HAS_DL(k) && DL(k) <= g.now)
+#define NOT_LATER_THAN_0(k) (!HAS_DL(k) || DL(0) <= DL(k))
+#define NOT_LATER_THAN_1(k) (!HAS_DL(k) || DL(1) <= DL(k))
+#define NOT_LATER_THAN_2(k) (!HAS_DL(k) || DL(2) <= DL(k))
+#define EARLIEST(r) (HAS_DL(r) && ((r) == 0 ? ALL_K(NOT_LATER_THAN_0) : (r) == 1 ? ALL_K(NOT_LATER_THAN_1) : ALL_K(NOT_LATER_THAN_2)))
+
+CONTRACT(find_earliest_deadline)
+static size_t find_earliest_deadline(reproc_event_source *sources, size_t num_sources)
+  REQ_(sources != NULL && num_sources >= 1 && num_sources <= VERIF_NSRC)
+  ASSIGNS(g.now, g.os_calls)
+  ENS("C08/find_earliest_deadline.index_in_range", RV < num_sources)
+  ENS("C08/find_earliest_deadline.clock_monotone", g.now >= OLD(g.now))
+  ;
+
+#define EV_IN 1
+#define EV_OUT 2
+#define EV_ERR 4
+#define EV_EXIT 8
+#define EV_DEADLINE 16
+#define SRC(k) (sources[k])
+#define IN_RANGE(k) ((k) < num_sources)
+#define HASP(k) (IN_RANGE(k) && SRC(k).process != NULL)
+/* the pipe polled in slot 4k+j (or -1): stdin for IN, stdout for OUT, stderr for ERR, exit pipe for EXIT */
+#define SLOT_PIPE(k, j) ((j) == 0 ? ((SRC(k).interests & EV_IN) ? SRC(k).process->pipe.in : -1) \
+                       : (j) == 1 ? ((SRC(k).interests & EV_OUT) ? SRC(k).process->pipe.out : -1) \
+                       : (j) == 2 ? ((SRC(k).interests & EV_ERR) ? SRC(k).process->pipe.err : -1) \
+                                  : ((SRC(k).interests & EV_EXIT) ? SRC(k).process->pipe.exit : -1))
+#define VALID_ANY(k) (HASP(k) && (SLOT_PIPE(k, 0) != -1 || SLOT_PIPE(k, 1) != -1 || SLOT_PIPE(k, 2) != -1 || SLOT_PIPE(k, 3) != -1))
+#define EVBIT(k, j) (SLOT_PIPE(k, j) != -1 && g.poll_rev[4 * (k) + (j)] > 0)
+#define EV_EXPECT(k) (!HASP(k) ? 0 : ((EVBIT(k, 0) ? EV_IN : 0) | (EVBIT(k, 1) ? EV_OUT : 0) | (EVBIT(k, 2) ? EV_ERR : 0) | (EVBIT(k, 3) ? EV_EXIT : 0)))
+#define EV_IS_EXPECTED(k) (!IN_RANGE(k) || SRC(k).events == EV_EXPECT(k))
+#define EV_ZERO(k) (!IN_RANGE(k) || SRC(k).events == 0)
+#define EV_NONZERO(k) (IN_RANGE(k) && SRC(k).events != 0)
+#define EV_COUNT ((EV_NONZERO(0) ? 1 : 0) + (EV_NONZERO(1) ? 1 : 0) + (EV_NONZERO(2) ? 1 : 0))
+#define EV_SUBSET(k) (!IN_RANGE(k) || ((SRC(k).events & ~((SRC(k).interests & 15) | EV_DEADLINE)) == 0 && (SRC(k).process != NULL || SRC(k).events == 0)))
+#define ONLY_DEADLINE_ON(r) (IN_RANGE(r) && SRC(r).events == EV_DEADLINE && ((r) == 0 || EV_ZERO(0)) && ((r) == 1 || EV_ZERO(1)) && ((r) == 2 || EV_ZERO(2)))
+#define ONLY_DEADLINE_ON_EXPIRED(r) (ONLY_DEADLINE_ON(r) && EXPIRED_NOW(r))
+#define ONLY_DEADLINE_ON_EARLIEST(r) (ONLY_DEADLINE_ON(r) && EARLIEST(r))
+#define SOME_R(phi) (phi(0) || phi(1) || phi(2))
+#define SLOTS_AS_ASKED(k) (!IN_RANGE(k) || (g.poll_fdv[4 * (k)] == (HASP(k) ? SLOT_PIPE(k, 0) : -1) && g.poll_fdv[4 * (k) + 1] == (HASP(k) ? SLOT_PIPE(k, 1) : -1) && g.poll_fdv[4 * (k) + 2] == (HASP(k) ? SLOT_PIPE(k, 2) : -1) && g.poll_fdv[4 * (k) + 3] == (HASP(k) ? SLOT_PIPE(k, 3) : -1) && IMPLIES(HASP(k), g.poll_evv[4 * (k)] == POLLOUT && g.poll_evv[4 * (k) + 1] == POLLIN && g.poll_evv[4 * (k) + 2] == POLLIN && g.poll_evv[4 * (k) + 3] == POLLIN)))
+/* the timeout handed to poll: the smaller of `timeout` and the time left until
+   the earliest deadline (INFINITE counts as larger than everything) */
+#define T_WITH_DEADLINE(d) ((timeout == -1 || (d) - g.poll_at < timeout) ? (int) ((d) - g.poll_at) : timeout)
+#define POLL_TIMEOUT_FOR(r) (!EARLIEST(r) || g.poll_timeout == T_WITH_DEADLINE(DL(r)))
+#define POLLED (g.poll_calls == OLD(g.poll_calls) + 1)
+#define KEPT(k) (!IN_RANGE(k) || (SRC(k).process == OLD(SRC(k).process) && SRC(k).interests == OLD(SRC(k).interests)))
+
+/* The clauses below are what callers (reproc_drain) rely on. The statements that
+   need a walk over all sources - which deadline is earliest, which timeout
+   reaches poll, which events are reported for which kernel answer - are
+   postconditions in executable form in harness/h_poll.c (labels C08/poll.*,
+   C09/poll.*), checked on the same enforced call. */
+CONTRACT(reproc_poll)
+int reproc_poll(reproc_event_source *sources, size_t num_sources, int timeout)
+  REQ_(timeout >= -1 && num_sources <= VERIF_NSRC)
+  ASSIGNS(sources != NULL: __CPROVER_object_whole(sources); g)
+  ENS("C14/reproc_poll.misuse_is_einval", IMPLIES(sources == NULL || num_sources == 0, RV == -EINVAL && OS_UNTOUCHED))
+  ENS("C09/reproc_poll.sources_not_rewritten", IMPLIES(sources != NULL && num_sources != 0, ALL_K(KEPT)))
+  ENS("C09/reproc_poll.epipe_only_if_nothing_can_be_polled", IMPLIES(sources != NULL && num_sources != 0 && RV == -EPIPE, !ANY_K(VALID_ANY) && g.poll_calls == OLD(g.poll_calls)))
+  ENS("C09/reproc_poll.events_subset_of_interests", IMPLIES(sources != NULL && num_sources != 0 && RV >= 0, ALL_K(EV_SUBSET)))
+  ENS("C09/reproc_poll.result_counts_sources_with_events", IMPLIES(sources != NULL && num_sources != 0 && RV >= 0, RV == EV_COUNT))
+  ENS("C04/reproc_poll.errors", IMPLIES(sources != NULL && num_sources != 0 && RV < 0 && RV != -EPIPE, g.faults > OLD(g.faults) && IMPLIES(OLD(g.faults) == 0, RV == -g.first_errno)))
+  ENS("C05/reproc_poll.ledger_unchanged", g.open == OLD(g.open) && g.lib == OLD(g.lib) && g.nsig == OLD(g.nsig) && g.reaps == OLD(g.reaps) && g.kill_calls == OLD(g.kill_calls) && g.wait_calls == OLD(g.wait_calls) && g.rd_calls == OLD(g.rd_calls) && g.wr_calls == OLD(g.wr_calls))
+  ;
+
 /* reproc_start (C04, C05, C06, C10, C12, C13, C14). */
 #define ARGV_NULL (argv == NULL)
 #define ARGV0_OK (argv != NULL && argv[0] != NULL)
